@@ -83,6 +83,10 @@ PROPS["C02"] = store_prop(["Props/C02.v"], ["3", "4", "6", "7", "11"], ["C02"],
 PROPS["C05"] = store_prop(["Props/C05.v"], ["3", "4", "11"], ["C05"],
     "conservation law entries stored = resident + deletes in flight + notifications over all histories and delivery orders (Proof/StoreInv.v); listener log of the model vs the real removal listener, per delivered event and per tick",
     ["entry pool disabled, no secondary cache (demotion to a secondary cache is not a removal)", "Close is excluded: it empties the map without notifications by design"])
+PROPS["C05"]["go_tests"] = ["TestVerifStore", "TestVerifEvictOverlap"]
+PROPS["C05"]["impl_only_traces"] = ["evictoverlap"]
+PROPS["C05"]["rule"] = STORE_RULE + ("; plus evictions that wait for a shard lock while the entry is overwritten in place inside that critical section (the harness holds the lock, "
+                                     "waits until the evicting goroutine is parked inside removeEntry, overwrites with the store's own setShardWithoutLock, releases): the listener must be told the value the entry left with")
 PROPS["C06"] = store_prop(["Props/C06.v"], ["0", "1", "8", "3", "4", "11"], ["C06"],
     "Set/loader admission rules over the store model; Set results, immediate visibility and removal reasons compared with the real Store")
 PROPS["C06"]["go_tests"] = ["TestVerifStore", "TestVerifDoorkeeper"]
@@ -200,8 +204,9 @@ PROPS["C15"] = {"props_files": ["Props/C15.v"], "go_tests": ["TestVerifHybrid", 
 
 PROPS["C18"] = {
     "props_files": ["Props/C18.v"],
-    "go_tests": ["TestVerifKeys"],
-    "go_alt": {"gocmd": "go1.26.8", "tests": ["TestVerifKeys"], "env": {"VERIF_TRACE_SUFFIX": "126"}},
+    "go_tests": ["TestVerifKeys", "TestVerifCollidingLoads"],
+    "go_alt": {"gocmd": "go1.26.8", "tests": ["TestVerifKeys", "TestVerifCollidingLoads"], "env": {"VERIF_TRACE_SUFFIX": "126"}},
+    "impl_only_traces": ["collide", "collide126"],
     "level": "proof",
     "rule": "Get/Set/Delete histories on real Stores instantiated for 17 key types (all integer widths, bool, uintptr, named int, string, arrays, "
             "structs with and without padding, pointers, a struct with a string field under a StringKey function, and an int store under a "
